@@ -793,6 +793,17 @@ func TestReplay(t *testing.T) {
 		t.Fatal(err)
 	}
 	rec := h.Begin("C12", "replay")
+	if h.ReplayPart(p) == "hub" {
+		var hc HubCase
+		if err := h.LoadReplay(p, &hc); err != nil {
+			t.Fatal(err)
+		}
+		rec.MarkCurrent(hc)
+		o := runHubCase(hc)
+		fmt.Println("classes:", o.Classes)
+		rec.Report(t, hc, o)
+		return
+	}
 	if h.ReplayPart(p) == "opening" {
 		var oc OCase
 		if err := h.LoadReplay(p, &oc); err != nil {
